@@ -40,6 +40,7 @@ type Anchor struct {
 	Desc   string    `json:"desc"`
 	Skip   string    `json:"skip,omitempty"`
 	NonFin bool      `json:"nonfinite,omitempty"`
+	KF     string    `json:"kf,omitempty"`  // known finding reproduced by this anchor (printed by the plugin)
 	Bnd    bool      `json:"bnd,omitempty"` // round-2 boundary / large-order anchor (always in the quick tier)
 	Preds  []PredTag `json:"preds,omitempty"`
 	goal   string
@@ -870,13 +871,14 @@ func buildAnchors(o Opts) []*Anchor {
 	b.logarith(rng)
 	b.mgamma()
 	b.round2()
+	b.round3()
 	return b.as
 }
 
 const anchorHeader = `From Coq Require Import Reals ZArith QArith List.
 From Coquelicot Require Import Coquelicot.
 From Interval Require Import Tactic.
-From ADV Require Import Base.Num C13.Model C13.Spec C13.Spec2 C13.Anchors C13.Anchors2.
+From ADV Require Import Base.Num C13.Model C13.Spec C13.Spec2 C13.Spec3 C13.Anchors C13.Anchors2.
 Open Scope R_scope.
 `
 
